@@ -7,7 +7,7 @@ Transcribed from the property text of C14 (`/verif/properties.jsonl`) and the do
 keywords.  `v k` is the numeric value keyword `k` has in the merged parameter set, `n` the number of samples.
 -/
 namespace TapkeeVerif.C14
-open TapkeeVerif.Gen
+open TapkeeVerif.Gen TapkeeVerif.Front
 
 /-- the methods that search nearest neighbours -/
 def neighbourMethods : List Meth :=
@@ -15,8 +15,9 @@ def neighbourMethods : List Meth :=
    .LinearLocalTangentSpaceAlignment, .HessianLocallyLinearEmbedding, .LaplacianEigenmaps,
    .LocalityPreservingProjections, .Isomap, .LandmarkIsomap, .StochasticProximityEmbedding, .ManifoldSculpting]
 
-/-- every documented range that applies to method `m` holds (`speLocal`: `spe_global_strategy` is `false`) -/
-def SpecHolds (m : Meth) (n : Nat) (v : Kw → Rat) (speLocal : Bool) : Prop :=
+/-- **The ranges listed in the property text** that apply to method `m` hold (`speLocal`: `spe_global_strategy` is
+    `false`) -/
+def ListedRanges (m : Meth) (n : Nat) (v : Kw → Rat) (speLocal : Bool) : Prop :=
   -- target_dimension ∈ [1, N), every method
   (1 ≤ v .target_dimension ∧ v .target_dimension < n) ∧
   -- num_neighbors ∈ [3, N), the 11 neighbour-using methods (SPE only with its local strategy)
@@ -37,5 +38,27 @@ def SpecHolds (m : Meth) (n : Nat) (v : Kw → Rat) (speLocal : Bool) : Prop :=
   (m = .FactorAnalysis → 0 ≤ v .fa_epsilon) ∧
   -- squishing rate ∈ [0, 1)
   (m = .ManifoldSculpting → 0 ≤ v .squishing_rate ∧ v .squishing_rate < 1)
+
+/-- **Rank conditions on `target_dimension` added by the repairs** (not in the property's list; each is documented in
+    the fix commit and by the comment next to the check): F-DIM-RANK-LOCAL 1a9ba3c, F-LANDMARK-DIM c5e886d,
+    F-DIM-RANK-LINEAR a64904a (keywords.hpp: "less than the minimum of the total number of vectors and the current
+    dimension"), F-TSNE-DIMS 79e38b2.  `dim` is the feature dimension the method sees (`features.dimension()`,
+    0 without a features callback). -/
+def RankConditions (m : Meth) (n dim : Nat) (v : Kw → Rat) : Prop :=
+  -- at most num_neighbors coordinates from a num_neighbors × num_neighbors local Gram matrix
+  (m ∈ [Meth.HessianLocallyLinearEmbedding, .KernelLocalTangentSpaceAlignment, .LinearLocalTangentSpaceAlignment] →
+      v .target_dimension < v .num_neighbors + 1) ∧
+  -- at most as many coordinates as landmarks, ⌊N · landmark_ratio⌋
+  (m ∈ [Meth.LandmarkIsomap, .LandmarkMultidimensionalScaling] →
+      v .target_dimension < (truncRat ((n : Rat) * v .landmark_ratio) : Rat) + 1) ∧
+  -- a projection of the feature space: at most `current dimension` coordinates
+  (m ∈ [Meth.NeighborhoodPreservingEmbedding, .LinearLocalTangentSpaceAlignment, .LocalityPreservingProjections,
+        .PrincipalComponentAnalysis, .ManifoldSculpting] → v .target_dimension < (dim : Rat) + 1) ∧
+  -- the Barnes-Hut approximation (theta > 0) produces two-dimensional maps only
+  (m = .tDistributedStochasticNeighborEmbedding → 0 < v .sne_theta → 2 ≤ v .target_dimension ∧ v .target_dimension < 3)
+
+/-- every documented range that applies to method `m` holds -/
+def SpecHolds (m : Meth) (n dim : Nat) (v : Kw → Rat) (speLocal : Bool) : Prop :=
+  ListedRanges m n v speLocal ∧ RankConditions m n dim v
 
 end TapkeeVerif.C14
